@@ -42,6 +42,10 @@ func (r *Recorder) Setup(ev *SetupEv) {
 	r.setupAt = append(r.setupAt, r.cur)
 }
 func (r *Recorder) Add(ev any) {
+	if os.Getenv("VERIF_DEBUG") == "events" {
+		b, _ := json.Marshal(ev)
+		fmt.Fprintf(os.Stderr, "EVENT %s\n", b)
+	}
 	r.Events = append(r.Events, ev)
 	r.setupAt = append(r.setupAt, r.cur)
 }
